@@ -11,7 +11,8 @@ EXTENDS Integers, Sequences, FiniteSets
 Models == {"ok_lp", "ok_logic", "infeas", "unsupported", "needbounds",
            "trunc_header", "trunc_body", "bad_opcode", "bad_index", "empty", "missing",
            "infeas_nested",    \* infeasibility found while propagating into a nested expression
-           "ok_noobj"}         \* valid model without objective
+           "ok_noobj",         \* valid model without objective
+           "ok_obj2"}          \* valid model with two objectives, the second one selected (objno=2)
 Opts == {"none", "valid", "unknown", "illtyped", "objno_range",
          "solcount",           \* valid: sol:count=1 (multiple-solution suffixes)
          "optfile_self",       \* tech:optionfile naming a file that includes itself
@@ -22,7 +23,7 @@ Names == {"absent", "present", "short", "crlf",
           "emptyfirst"}        \* malformed: the names files start with an empty line
 Outs == {"ok", "blocked",
          "full"}               \* the result path accepts open() but fails on write/close (device full)
-NewValues == {"infeas_nested", "ok_noobj", "solcount", "optfile_self", "optfile_missing", "emptyfirst", "full", "solstub"}
+NewValues == {"infeas_nested", "ok_noobj", "ok_obj2", "solcount", "optfile_self", "optfile_missing", "emptyfirst", "full", "solstub"}
 Scripted == 0                  \* the result code the scripted solver reports
 NAlt == 3                      \* further solutions the scripted solver reports in a "solstub" scenario
 \* the scenario space: the complete product of the round-1 values, plus every scenario that uses
@@ -49,7 +50,7 @@ NamesBad(s) == s.names = "emptyfirst"
 AltOK(s, o) ==
   /\ o.altBad = 0
   /\ s.opt # "solstub" => o.altN = 0
-  /\ (s.opt = "solstub" /\ o.sol = "ok" /\ o.code = Scripted /\ s.model \in {"ok_lp", "ok_logic", "ok_noobj"})
+  /\ (s.opt = "solstub" /\ o.sol = "ok" /\ o.code = Scripted /\ s.model \in {"ok_lp", "ok_logic", "ok_noobj", "ok_obj2"})
         => (o.altN = NAlt /\ o.nsol = NAlt /\ o.altSeq)      \* altSeq: the files are <stub>1.sol .. <stub>N.sol
 WellFormed(s, o) ==
   /\ ~o.hang /\ ~o.crash
